@@ -19,3 +19,36 @@ Print Assumptions C19_vnum64_size.
 Theorem C19_vnum64_rejects : forall n, 2^63 <= n < 2^64 -> set_vnum64 n = [].
 Proof. exact vnum64_rejects. Qed.
 Print Assumptions C19_vnum64_rejects.
+
+(* ---- integer <-> text ---- *)
+Require Import IW.UT.Conv IW.UT.Conv_proofs IW.JSON.TextSpec IW.JSON.Text.
+(* iwatoi reads back the decimal text of every 64-bit value (INT64_MIN included: the wrap-around of the C code is explicit) *)
+Theorem C19_atoi_dec : forall n, - 2 ^ 63 <= n < 2 ^ 63 -> atoi (dec n) = n.
+Proof. exact atoi_dec. Qed.
+Print Assumptions C19_atoi_dec.
+(* iwitoa with the library's number buffer writes that text without leaving the buffer, and iwatoi inverts it *)
+Theorem C19_itoa_atoi : forall n, - 2 ^ 63 <= n < 2 ^ 63 -> exists t, write_int n = Ok t /\ atoi t = n.
+Proof. exact itoa_atoi. Qed.
+Print Assumptions C19_itoa_atoi.
+(* PARTIAL: `itoa_in_bounds` for every buffer size (the model UT/Conv.v returns None on any access outside [0, max)) is
+   compared with the implementation for all sizes 0..64 on every run (guard bytes around the buffer), not proved. *)
+
+(* ---- hex ---- *)
+Theorem C19_hex_roundtrip : forall l, Forall (fun b => 0 <= b < 256) l -> hex2bin (bin2hex l) = l.
+Proof. exact hex_roundtrip. Qed.
+Print Assumptions C19_hex_roundtrip.
+
+(* ---- comparators: byte keys of plain databases are a strict total order, equal only when identical ---- *)
+Require Import IW.KV.Keys IW.KV.Inst IW.KV.Keys_proofs.
+Theorem C19_plain_cmp_total_order :
+  (forall a b : key, cmp_of plain a b = CompOpp (cmp_of plain b a)) /\
+  (forall a b c : key, cmp_of plain a b = Lt -> cmp_of plain b c = Lt -> cmp_of plain a c = Lt) /\
+  (forall a b : key, cmp_of plain a b = Eq <-> fst a = fst b).
+Proof. split; [exact plain_cmp_antisym|]. split; [exact plain_cmp_trans|exact plain_cmp_eq_iff]. Qed.
+Print Assumptions C19_plain_cmp_total_order.
+(* PARTIAL: for integer, real-number and compound keys antisymmetry / transitivity / equal-iff-identical / agreement with
+   numeric order / agreement of the cached 115-byte prefix are decided on key triples by the oracle of checks/C19.py
+   (model Keys.v compared with the implementation's static comparators), not proved. *)
+
+Example C19_examples : atoi (dec (- 2 ^ 63)) = - 2 ^ 63 /\ hex2bin (bin2hex [0; 255; 26]) = [0; 255; 26] /\ set_vnum64 300 = [211; 2].
+Proof. vm_compute. repeat split; reflexivity. Qed.
